@@ -292,7 +292,7 @@ Section Reporters.
       let '(name, v) := nv in
       match lookup name d with
       | Some els => flat_map (fun r => if beq (fst r) x then [(name, mul NM (snd r) v)] else []) els
-      | None => []
+      | None => if beq name x then [(name, v)] else []     (* a food the book does not define stands for itself (fix F26) *)
       end) (ln_elems ln).
 
   Definition rep_byfood (c : rconfig) (d : db) : reporter := {|
